@@ -152,6 +152,15 @@ func c12Exec(plan *Plan, st *Stats) *Violation {
 			if d.nNext < len(plan.Ops) {
 				st.probe("ended_by_stop_or_node_end")
 			}
+			if sh := shapeOf(plan.Program); sh.nStops > 0 {
+				st.probe("end_with_statements_still_queued")
+			}
+			for _, o := range post {
+				if o.K == "next" && (o.Arg > 3 || o.Arg < 0) {
+					st.probe("post_end_call_with_out_of_range_argument")
+					break
+				}
+			}
 		}
 		if viol = absorb(0); viol != nil {
 			return
